@@ -10,6 +10,7 @@
 
 #include "verif_rc.hpp"
 
+#include <memory>
 #include <poll.h>
 #include <signal.h>
 #include <sys/resource.h>
@@ -53,6 +54,22 @@ inline bool deser(const std::string &s, vr::VResult &r) {
   return true;
 }
 
+// The child can announce, before it calls into the code under test, that the
+// next call belongs to a known-finding class (matcher name, or "" for none).
+// If the call then crashes or never returns, the parent attributes the failure
+// to that class.
+inline int &pre_fd() {
+  static int fd = -1;
+  return fd;
+}
+inline void announce(const std::string &known) {
+  if (pre_fd() < 0)
+    return;
+  const std::string s = "PRE " + known + "\n";
+  ssize_t w = write(pre_fd(), s.data(), s.size());
+  (void)w;
+}
+
 // number of CPU-limit hits seen by this process (later hits use a shorter budget
 // so that shrinking a genuine endless loop stays affordable)
 inline int &hang_count() {
@@ -62,7 +79,13 @@ inline int &hang_count() {
 
 inline std::function<vr::VResult(const vr::VCase &)>
 guarded(std::function<vr::VResult(const vr::VCase &)> f) {
-  return [f](const vr::VCase &c) -> vr::VResult {
+  // per sub-check state: bounds the cost of shrinking a failure (every shrink
+  // candidate is a fork; a candidate that loops forever costs its CPU budget)
+  struct State {
+    int fails = 0, hangs = 0;
+  };
+  std::shared_ptr<State> st(new State());
+  auto run = [f](const vr::VCase &c) -> vr::VResult {
     if (getenv("C16_NOFORK"))
       return f(c);
     int fd[2];
@@ -91,6 +114,7 @@ guarded(std::function<vr::VResult(const vr::VCase &)> f) {
       rl.rlim_cur = rl.rlim_max = 0;
       setrlimit(RLIMIT_CORE, &rl);
       vr::VResult cr;
+      pre_fd() = fd[1];
       try {
         cr = f(c);
       } catch (const VerifAbort &e) {
@@ -99,7 +123,7 @@ guarded(std::function<vr::VResult(const vr::VCase &)> f) {
       } catch (const std::exception &e) {
         cr.fail(std::string("unexpected exception: ") + e.what());
       }
-      const std::string s = ser(cr);
+      const std::string s = "RES\n" + ser(cr);
       size_t off = 0;
       while (off < s.size()) {
         const ssize_t w = write(fd[1], s.data() + off, s.size() - off);
@@ -139,11 +163,31 @@ guarded(std::function<vr::VResult(const vr::VCase &)> f) {
       kill(pid, SIGKILL);
     int status = 0;
     waitpid(pid, &status, 0);
+    // split the announcements from the result
+    std::string announced;
+    {
+      std::string rest;
+      std::istringstream in(buf);
+      std::string line;
+      bool inres = false;
+      while (std::getline(in, line)) {
+        if (inres)
+          rest += line + "\n";
+        else if (line == "RES")
+          inres = true;
+        else if (line.compare(0, 4, "PRE ") == 0)
+          announced = line.substr(4);
+        else if (line == "PRE")
+          announced = "";
+      }
+      buf = rest;
+    }
     if (timeout) {
       ++hang_count();
       r.label("guard-timeout");
       r.fail("no termination: the call did not return within the wall-clock "
              "backstop (120 s)");
+      r.known = announced;
       return r;
     }
     if (WIFSIGNALED(status)) {
@@ -159,6 +203,7 @@ guarded(std::function<vr::VResult(const vr::VCase &)> f) {
         r.fail(vr::fmt("the code under test crashed with signal %d (%s)", sig,
                        strsignal(sig)));
       }
+      r.known = announced;
       return r;
     }
     if (!deser(buf, r)) {
@@ -166,6 +211,29 @@ guarded(std::function<vr::VResult(const vr::VCase &)> f) {
       e.fail("harness: child returned no result (exit status " +
              std::to_string(WEXITSTATUS(status)) + ")");
       return e;
+    }
+    return r;
+  };
+  return [run, st](const vr::VCase &c) -> vr::VResult {
+    // shrink budget: after the first failure at most 400 further candidates,
+    // at most 8 of them non-terminating; beyond that candidates are not run
+    // (reported as passing), which ends the shrinking at the best case so far
+    if (st->fails > 400 || st->hangs > 8 || (st->fails > 0 && getenv("C16_NOSHRINK"))) {
+      vr::VResult r;
+      r.label("shrink-budget-exhausted");
+      return r;
+    }
+    vr::VResult r = run(c);
+    if (st->fails > 0)
+      ++st->fails; // counts candidates after the first failure
+    if (!r.ok && !r.known.empty() && vr::split_env("VERIF_KNOWN").count(r.known))
+      return r; // excluded class: not a failure that gets shrunk
+    if (!r.ok) {
+      if (st->fails == 0)
+        st->fails = 1;
+      for (auto &l : r.labels)
+        if (l == "guard-cpu-limit" || l == "guard-timeout")
+          ++st->hangs;
     }
     return r;
   };
